@@ -54,10 +54,13 @@ type ardSim struct {
 	mark     bool
 	mycall   string
 	// behaviour
-	faultNext  int // answer the next n data frames with CRCFAULT
-	refuseDial bool
-	buffered   int
-	done       chan struct{}
+	ackThenFaultDone bool
+	ackThenFault     bool // witness of the known finding: unrelated BUFFER report, then CRCFAULT
+	staleZero        bool // before acknowledging a second or later write, report BUFFER 0 for the previous one
+	faultNext        int  // answer the next n data frames with CRCFAULT
+	refuseDial       bool
+	buffered         int
+	done             chan struct{}
 }
 
 func (s *ardSim) frameCmd(text string) []byte {
@@ -146,10 +149,26 @@ func (s *ardSim) onData(raw, payload []byte) {
 		s.say("CRCFAULT")
 		return
 	}
+	if s.ackThenFault && len(s.payloads) >= 1 && !s.ackThenFaultDone {
+		// known-finding witness: a BUFFER report about earlier data arrives just before the
+		// CRCFAULT for this frame; the frame is discarded by the TNC
+		s.ackThenFaultDone = true
+		prev := s.buffered
+		s.mu.Unlock()
+		s.say(fmt.Sprintf("BUFFER %d", prev))
+		s.say("CRCFAULT")
+		return
+	}
 	s.payloads = append(s.payloads, payload)
 	s.buffered += len(payload)
 	n := s.buffered
+	stale := s.staleZero && len(s.payloads) > 1
 	s.mu.Unlock()
+	if stale {
+		// the report that the previous data has left the buffer crosses the new data on the link
+		s.say("BUFFER 0")
+		time.Sleep(2 * time.Millisecond)
+	}
 	s.say(fmt.Sprintf("BUFFER %d", n))
 }
 
@@ -445,9 +464,9 @@ func runC14(ctx *Ctx) error {
 			}
 			sc.faults = append(sc.faults, f)
 		}
-		if sc.tcp {
+		if sc.tcp || sc.id%3 == 2 {
 			for k := range sc.faults {
-				sc.faults[k] = 0 // CRCFAULT exists on the serial interface only
+				sc.faults[k] = 0 // CRCFAULT exists on the serial interface only; and it is not combined with stale BUFFER reports (known finding below)
 			}
 		}
 		ctx.Mark(sc.describe())
@@ -490,6 +509,19 @@ func runC14(ctx *Ctx) error {
 		if i < 2 {
 			res.Sample(sc.describe())
 		}
+	}
+
+	// ---------- known-finding witness: Write takes any BUFFER report for its acknowledgement
+	{
+		sc := c14Scenario{id: -1, mycall: "LA5NTA", peer: "LA1B", maxSeg: 0, fault: "buffer-then-crcfault",
+			inbound: [][]byte{[]byte("hello")}, outbound: [][]byte{[]byte("first write"), []byte("second write, discarded by the TNC")}, faults: []int{0, 0}}
+		ctx.Mark(sc.describe())
+		fails, _ := sc.run(r)
+		for _, f := range fails {
+			f.Case = sc.describe()
+			res.Fail(f)
+		}
+		res.Count("buffer-then-crcfault-witness")
 	}
 
 	out, err := ctx.Model.RunParallel(lines, 8)
@@ -576,7 +608,8 @@ func (sc c14Scenario) run(r Rng) (fails []Failure, extra [][3]string) {
 	fail := func(site, msg string, args ...interface{}) {
 		fails = append(fails, Failure{Kind: "oracle", Site: site, Impl: fmt.Sprintf(msg, args...)})
 	}
-	sim := &ardSim{tcp: sc.tcp, done: make(chan struct{}), mycall: "NOCALL", refuseDial: sc.fault == "refuse-dial"}
+	sim := &ardSim{tcp: sc.tcp, done: make(chan struct{}), mycall: "NOCALL", refuseDial: sc.fault == "refuse-dial", staleZero: sc.id%3 == 2,
+		ackThenFault: sc.fault == "buffer-then-crcfault"}
 	var hostLink io.ReadWriteCloser
 	var closers []io.Closer     // the TNC's ends of the links (closing them is "the TNC went away")
 	var hostClosers []io.Closer // the host's ends: closed only after the TNC's ends, for clean-up
@@ -953,7 +986,11 @@ func (sc c14Scenario) run(r Rng) (fails []Failure, extra [][3]string) {
 		badHost := append([]string{}, sim.badHost...)
 		sim.mu.Unlock()
 		if !bytes.Equal(kept, accepted) {
-			fail("write", "the TNC kept %d bytes, Write reported %d bytes accepted (or their contents differ)", len(kept), len(accepted))
+			site := "write"
+			if sc.fault == "buffer-then-crcfault" {
+				site = "write-acknowledged-by-unrelated-buffer-report"
+			}
+			fail(site, "the TNC kept %d bytes, Write reported %d bytes accepted (or their contents differ)", len(kept), len(accepted))
 		}
 		if len(badHost) > 0 {
 			fail("write", "the TNC could not accept the host's framing: %v", badHost)
